@@ -199,19 +199,26 @@ def gen_cases(rng, tier):
 def nontrivial(payload, md):
     return md.get('done0') == '1' and md.get('uids0') not in (None, '-', 'none')
 
-LEVEL_TEXT = ('Coq theorem c11_terminates over an executable step-machine model of DiscoveryAgent (with fixes/01, '
-              'fixes/02): for EVERY stream of answers from the RDM line (silence, collisions, corrupt/truncated '
-              'replies, refused mutes, out-of-range or repeated UIDs) a full or incremental discovery reaches the '
-              'completion callback after finitely many transactions, runs it exactly once, and never reaches a '
-              'modelled memory hazard (dangling parent range, top() of empty stack, read past the DUB reply); proof '
-              'by a lexicographic measure (undiscovered+un-bad UIDs, potential of the range stack). PARTIAL: the '
-              'completeness clauses (full discovery returns exactly the connected UIDs; incremental = still '
-              'answering + new) are NOT proved; they are only exercised by the differential check on generated '
-              'conforming populations, where model and real agent must report the same UID set. The pre-fix code is '
-              'refuted by two machine-checked witnesses (bounded: no completion after 2000 transactions).')
-LEVEL_NOTE = ('Trusted: Coq kernel (incl. vm_compute for the witnesses), extraction (ExtrOcamlBasic), OCaml/C++ glue, '
-              'generator coverage; model = code is validated by differential testing of every Branch/MuteDevice/'
-              'UnMuteAll call, not proved. The theorem assumes the target answers each request once (no Abort(), no '
-              'second Start while running) and that a DUB reply length fits unsigned int.')
+LEVEL_TEXT = ('Coq theorems over an executable step-machine model of DiscoveryAgent (the code with the two C11 fixes): '
+              'c11_terminates - for EVERY stream of answers from the RDM line (silence, collisions, corrupt/truncated '
+              'replies, refused mutes, out-of-range or repeated UIDs) a full or incremental discovery runs the '
+              'completion callback exactly once after finitely many transactions and never reaches a modelled memory '
+              'hazard (lexicographic measure); c11_complete - against conforming responders (answer a DUB iff un-muted '
+              'and in range, honour mute/un-mute) a full discovery returns status true and exactly the connected set, '
+              'for every duplicate-free set of UIDs below the broadcast UID (big-step lemma by strong induction on '
+              'the range width); c11_incremental - an incremental discovery from any earlier result returns exactly '
+              'the now-connected set (previously known that still ACK mute + new). Completeness assumes, as an '
+              'explicit hypothesis, that the bytes seen when several responders answer do not decode as a valid '
+              'reply. The pre-fix code is refuted by two machine-checked witnesses (bounded: no completion after '
+              '2000 transactions). Model tied to the C++ by a differential check of every Branch/MuteDevice/'
+              'UnMuteAll call, completion count, status and UID set.')
+LEVEL_NOTE = ('Trusted: Coq kernel (incl. vm_compute for witnesses/examples), extraction (ExtrOcamlBasic), OCaml/C++ '
+              'glue, generator coverage; model = code is validated by differential testing, not proved. Theorems '
+              'assume the target answers each request once (no Abort(), no second Start while running) and that a '
+              'DUB reply length fits unsigned int. The conforming line of c11_complete/c11_incremental (E120.v '
+              'e_step/e_branch) is a Coq definition; the populations run by the harness use byte-wise OR of the '
+              'colliding frames instead of the abstract collision frame, so phantom UIDs from collisions are covered '
+              'by c11_terminates and by the differential check, not by the completeness theorems. "uids = S" is '
+              'stated as equality of membership.')
 TECHNIQUE = 'Coq proof on hand-written executable model + extracted-model/implementation differential correspondence'
 DESIGN_REF = 'DESIGN.md §4 C11'
